@@ -211,7 +211,11 @@ def generate(schema, count, seed=0, kinds=("query", "query", "query", "mutation"
         except Exception:
             rejected += 1
             continue
-        if validate_ast(schema, doc).errors:
+        try:
+            invalid = bool(validate_ast(schema, doc).errors)
+        except Exception:
+            invalid = False      # the library's validator crashed on a generated operation: keep it - the check that uses the corpus reports the crash
+        if invalid:
             rejected += 1
             continue
         out.append((text, variables))
